@@ -243,6 +243,63 @@ class ScipyStartCase(Case):
         return props
 
 
+class RelativeInfCase(Case):
+    """A fixed variable with a relative perturbation magnitude and an infinite bound: the configuration is refused,
+    or the variable stays where it is - never NaN (inf x 0) in the vectors sent to the evaluator."""
+
+    family = "fixed-variables/relative-infinite"
+
+    def __init__(self, cid, side="upper"):
+        self.id, self.side = cid, side
+
+    def describe(self):
+        return f"mask=(True, False), fixed variable: relative perturbation, infinite {self.side} bound"
+
+    def inputs(self, env):
+        return {"x1": env.real("x1", -5, 5)}
+
+    def run(self, env, inp):
+        from ropt.ensemble_evaluator import EnsembleEvaluator
+        from ropt.evaluator import EvaluatorResult
+
+        lower = [-10.0, -np.inf if self.side == "lower" else -10.0]
+        upper = [10.0, np.inf if self.side == "upper" else 10.0]
+        try:
+            cfg = ens.ensemble_config(N=2, R=1, P=2, mask=[True, False], lower=lower, upper=upper, x0=[0.0, 0.0], ptypes="relative",
+                                      magnitudes=0.01)
+        except ValueError:
+            return {"rejected": True}
+        pm = ens.stub_manager()
+        design = np.array([[[0.5, 0.0], [-0.25, 0.0]]])
+        ens.set_samples(lambda s_: env.const(design))
+        rows = []
+
+        def evaluator(variables, context):
+            rows.append(variables)
+            v = vals(variables)
+            return EvaluatorResult(objectives=env.arr(np.array([[v[i, 0]] for i in range(v.shape[0])], dtype=object)))
+
+        x = np.array([SR(Fraction(1, 4)), inp["x1"]], dtype=object)
+        ee = EnsembleEvaluator(cfg, None, evaluator, pm)
+        ee.calculate(env.arr(x), compute_functions=True, compute_gradients=True)
+        return {"rejected": False, "rows": rows}
+
+    def props(self, env, inp, oc):
+        if not oc.ok:
+            return [("no_internal_exception:" + type(oc.exc).__name__, SB(False))]
+        if oc.value["rejected"]:
+            return [("refused_or_fixed_variable_kept", SB(True))]
+        props = []
+        for c, rows in enumerate(oc.value["rows"]):
+            v = np.asarray(vals(rows), dtype=object)
+            for i in range(v.shape[0]):
+                props.append((f"call{c}.row{i}.fixed_value_in_request", exact(v[i, 1], inp["x1"])))
+        return props
+
+    def observe(self, env, inp, oc):
+        return {}
+
+
 def build_cases(tier):
     cases = []
     k = 0
@@ -279,6 +336,8 @@ def build_cases(tier):
     for mask in ((True, False, True), (False, True), (True, True, False)):
         add(ScipyStartCase, mask)
     add(ScipyStartCase, (True, False), "nelder-mead")
+    add(RelativeInfCase, "upper")
+    add(RelativeInfCase, "lower")
     if tier == "thorough":
         add(mask=(True, False, True, False), nested=True, R=2, C=1)
         add(mask=(False, True, True, False), sampler_map=(0, 0, 1, 1), R=2, P=3)
